@@ -39,6 +39,7 @@ import (
 	"math"
 	"strconv"
 
+	"github.com/cloudwego/dynamicgo/conv"
 	"github.com/cloudwego/dynamicgo/internal/json"
 	"github.com/cloudwego/dynamicgo/internal/native/types"
 	"github.com/cloudwego/dynamicgo/internal/rt"
@@ -141,7 +142,23 @@ func (m apiJSConv) Write(ctx context.Context, p *thrift.BinaryProtocol, field *t
 	}
 }
 
+// byteAsUint8 tells if the converter that calls the annotation prints thrift bytes as unsigned numbers
+// (conv.Options.ByteAsUint8, published by the converter under conv.CtxKeyConvOptions)
+func byteAsUint8(ctx context.Context) bool {
+	if ctx == nil {
+		return false
+	}
+	switch o := ctx.Value(conv.CtxKeyConvOptions).(type) {
+	case conv.Options:
+		return o.ByteAsUint8
+	case *conv.Options:
+		return o != nil && o.ByteAsUint8
+	}
+	return false
+}
+
 func (m apiJSConv) Read(ctx context.Context, p *thrift.BinaryProtocol, field *thrift.FieldDescriptor, out *[]byte) error {
+	unsignedByte := byteAsUint8(ctx)
 	switch field.Type().Type() {
 	case thrift.LIST:
 		*out = append(*out, '[')
@@ -150,7 +167,7 @@ func (m apiJSConv) Read(ctx context.Context, p *thrift.BinaryProtocol, field *th
 			return err
 		}
 		for i := 0; i < n; i++ {
-			err := appendInt(p, thrift.Type(et), out)
+			err := appendInt(p, thrift.Type(et), out, unsignedByte)
 			if err != nil {
 				return err
 			}
@@ -160,12 +177,12 @@ func (m apiJSConv) Read(ctx context.Context, p *thrift.BinaryProtocol, field *th
 		}
 		*out = append(*out, ']')
 	default:
-		return appendInt(p, field.Type().Type(), out)
+		return appendInt(p, field.Type().Type(), out, unsignedByte)
 	}
 	return nil
 }
 
-func appendInt(p *thrift.BinaryProtocol, typ thrift.Type, out *[]byte) error {
+func appendInt(p *thrift.BinaryProtocol, typ thrift.Type, out *[]byte, unsignedByte bool) error {
 	*out = append(*out, '"')
 	l := len(*out)
 	if cap(*out)-l < types.MaxInt64StringLen {
@@ -178,7 +195,12 @@ func appendInt(p *thrift.BinaryProtocol, typ thrift.Type, out *[]byte) error {
 		if err != nil {
 			return err
 		}
-		*out = json.EncodeInt64(*out, int64(i))
+		// a thrift byte is signed unless the converter runs with ByteAsUint8 (as conv/t2j does for plain fields)
+		if unsignedByte {
+			*out = json.EncodeInt64(*out, int64(uint8(i)))
+		} else {
+			*out = json.EncodeInt64(*out, int64(int8(i)))
+		}
 	case thrift.I16:
 		i, err := p.ReadI16()
 		if err != nil {
